@@ -212,6 +212,19 @@ func init() {
 			e.call(caller, 0, args[0], nil)
 			return e.tt.False
 		},
+		// vOtherProcess(label, f): f runs "in another process": package-level state is initialised afresh (with its
+		// own environment answers) for the call, and the caller's package-level state is put back afterwards.
+		"vOtherProcess": func(e *Engine, caller *frame, fn *ssa.Function, args []Value) Value {
+			saved, savedInit := e.globals, e.inInit
+			e.globals = map[*ssa.Global]*Value{}
+			e.inInit = true
+			for _, p := range e.x.initPkgs {
+				e.runInit(p)
+			}
+			e.inInit = savedInit
+			defer func() { e.globals = saved }()
+			return e.call(caller, 0, args[1], nil)
+		},
 		"vParam": func(e *Engine, caller *frame, fn *ssa.Function, args []Value) Value {
 			name := concreteStr(e, args[0], "param name")
 			v, ok := e.cfg.Params[name]
